@@ -120,6 +120,12 @@ func RunOnce(t *testing.T, h Harness, seed uint64, tape verifrt.Tape, keepLog bo
 		}
 		c.mu.Lock()
 		res.Violations = append([]Violation(nil), c.viol...)
+		// a panic of any goroutine of the system under test is a violation of whatever property is being checked;
+		// converted here, in the one place every mode (explore, minimise, replay) goes through, so that a panic
+		// found by a worker also reproduces from its replay file
+		for _, p := range res.Panics {
+			res.Violations = append(res.Violations, Violation{Prop: "*", Oracle: "panic", Sig: panicSig(p), Detail: p})
+		}
 		res.Progress = c.progress
 		res.Summary = c.summary
 		res.states = c.states
@@ -544,9 +550,6 @@ func exploreMain(t *testing.T, h Harness) {
 		}
 		if emitFp {
 			sum.PerSeedFp[strconv.FormatUint(seed, 10)] = r.Fingerprint
-		}
-		for _, p := range r.Panics {
-			r.Violations = append(r.Violations, Violation{Prop: "*", Oracle: "panic", Sig: panicSig(p), Detail: p})
 		}
 		if len(sum.Samples) < 3 && (r.Progress || i > 20) {
 			sm := r
